@@ -14,6 +14,9 @@ mod private {
     pub trait Sealed {}
 }
 
+/// How much `read_bytes` and `IoReader::fill_buffer` grow their buffer per step
+pub(crate) const READ_BYTES_STEP: usize = 8 * 1024;
+
 /// A custom Read trait for internal use
 pub trait Read<'de>: private::Sealed {
     /// Peek the next byte without consuming
@@ -48,8 +51,15 @@ pub trait Read<'de>: private::Sealed {
 
     /// Consuming `n` number of bytes
     fn read_bytes(&mut self, n: usize) -> Result<Vec<u8>, io::Error> {
-        let mut buf = vec![0u8; n];
-        self.read_exact(&mut buf)?;
+        // `n` is a length taken from the wire: grow the buffer as the bytes actually arrive
+        // instead of trusting it with one allocation of up to 4 GiB
+        let mut buf = Vec::with_capacity(n.min(READ_BYTES_STEP));
+        while buf.len() < n {
+            let filled = buf.len();
+            let step = (n - filled).min(READ_BYTES_STEP);
+            buf.resize(filled + step, 0);
+            self.read_exact(&mut buf[filled..])?;
+        }
         Ok(buf)
     }
 
